@@ -53,24 +53,43 @@ Section Progress.
   Notation ds := (districts votes).
   Notation ps := (parties votes).
 
-  Theorem bstep_progress s s' : BInv q votes pseats s -> bstep q votes tgt dorder s = Next s' ->
+  (* what an iteration that goes on is: a seat transfer (flaw - 2, multipliers untouched) or an accepted multiplier update
+     (the labelling found no under-represented district; seat matrix untouched) *)
+  Definition is_update (s s' : bstate) : Prop :=
+    let under := fst (unsat dorder (b_res s) tgt) in
+    let over := snd (unsat dorder (b_res s) tgt) in
+    exists LD LP a,
+      labeled q ps ds (calc_quots votes (b_rho s) (b_gamma s)) (b_res s) under over = Lab LD LP /\
+      sort_pos (filter (fun i => dmem LD i) under) = [] /\
+      adj_coef q (calc_quots votes (b_rho s) (b_gamma s)) (b_res s) (map fst LD) (map fst LP) = Adj a /\
+      Qeq_bool a 0 || Qle_bool 1 a = false /\
+      s' = mk_bstate (b_res s) (scale_rho_r (map fst LD) a (b_rho s)) (scale_gamma_r (map fst LP) a (b_gamma s)).
+
+  Theorem bstep_cases s s' : BInv q votes pseats s -> bstep q votes tgt dorder s = Next s' ->
     (flaw tgt dorder (b_res s') = flaw tgt dorder (b_res s) - 2 /\ b_rho s' = b_rho s /\ b_gamma s' = b_gamma s) \/
-    b_res s' = b_res s.
+    is_update s s'.
   Proof.
-    intros HI. unfold bstep. cbv zeta.
+    intros HI. unfold bstep, is_update. cbv zeta.
     set (under := fst (unsat dorder (b_res s) tgt)). set (over := snd (unsat dorder (b_res s) tgt)).
     assert (Hbody : bstep_body q votes s under over = Next s' ->
       (flaw tgt dorder (b_res s') = flaw tgt dorder (b_res s) - 2 /\ b_rho s' = b_rho s /\ b_gamma s' = b_gamma s) \/
-      b_res s' = b_res s).
+      exists LD LP a,
+        labeled q ps ds (calc_quots votes (b_rho s) (b_gamma s)) (b_res s) under over = Lab LD LP /\
+        sort_pos (filter (fun i => dmem LD i) under) = [] /\
+        adj_coef q (calc_quots votes (b_rho s) (b_gamma s)) (b_res s) (map fst LD) (map fst LP) = Adj a /\
+        Qeq_bool a 0 || Qle_bool 1 a = false /\
+        s' = mk_bstate (b_res s) (scale_rho_r (map fst LD) a (b_rho s)) (scale_gamma_r (map fst LP) a (b_gamma s))).
     { unfold bstep_body.
       destruct (labeled q ps ds (calc_quots votes (b_rho s) (b_gamma s)) (b_res s) under over) as [LD LP| |] eqn:El; try discriminate.
+      pose proof El as El0.
       unfold labeled in El. apply (lab_loop_ok q _ _ (sort_pos ps)) in El.
       2:{ intros i p H. apply in_map_iff in H. destruct H as (x & Hx & _). discriminate. }
       2:{ intros p i []. }
       destruct El as [HD HP].
       destruct (sort_pos (filter (fun i => dmem LD i) under)) as [|start rest] eqn:Es.
-      - destruct (adj_coef q _ (b_res s) (map fst LD) (map fst LP)) as [a|]; [|discriminate].
-        destruct (Qeq_bool a 0 || Qle_bool 1 a); [discriminate|]. intros [= <-]. right. reflexivity.
+      - destruct (adj_coef q _ (b_res s) (map fst LD) (map fst LP)) as [a|] eqn:Ea; [|discriminate].
+        destruct (Qeq_bool a 0 || Qle_bool 1 a) eqn:Ec; [discriminate|]. intros [= <-]. right.
+        exists LD, LP, a. repeat split; try assumption; reflexivity.
       - destruct (walk (S (length LD)) LD LP over start [] []) as [hops| |] eqn:Ew; try discriminate.
         destruct (augment (b_res s) start hops) as [res'|] eqn:Eg; [|discriminate]. intros [= <-]. left. cbn [b_res b_rho b_gamma].
         split; [|split; reflexivity].
@@ -102,6 +121,13 @@ Section Progress.
           assert (ceqb x fin = false) as -> by (apply ceqb_neq; exact H2). f_equal. lia.
         + rewrite Hcur, ceqb_refl. assert (ceqb start fin = false) as -> by (apply ceqb_neq; exact Hne). lia.
         + rewrite Hcur, ceqb_refl. assert (ceqb fin start = false) as -> by (apply ceqb_neq; intros E; apply Hne; symmetry; exact E). lia. }
-    destruct under as [|u0 ul]; [destruct over as [|o0 ol]; [discriminate|]|]; exact Hbody.
+    destruct under as [|u0 ul] eqn:Eu; [destruct over as [|o0 ol] eqn:Eo; [discriminate|]|]; exact Hbody.
+  Qed.
+
+  Theorem bstep_progress s s' : BInv q votes pseats s -> bstep q votes tgt dorder s = Next s' ->
+    (flaw tgt dorder (b_res s') = flaw tgt dorder (b_res s) - 2 /\ b_rho s' = b_rho s /\ b_gamma s' = b_gamma s) \/
+    b_res s' = b_res s.
+  Proof.
+    intros HI H. destruct (bstep_cases s s' HI H) as [L|(LD & LP & a & _ & _ & _ & _ & ->)]; [left; exact L|right; reflexivity].
   Qed.
 End Progress.
